@@ -185,4 +185,46 @@ func runTmo(ctx *Ctx) {
 		}
 		tmoRunCase(ctx, ops)
 	}
+	// bursts: the queue grows well past any small capacity (70..600 pending), drains almost or entirely
+	// (by pops and/or cancels), old futures are cancelled AGAIN (after they fired / were cancelled) while new
+	// ones occupy the slots, then it grows again — slice growth / shrink paths of the heap's backing array
+	nb := 12
+	if ctx.Thorough {
+		nb = 150
+	}
+	for c := 0; c < nb; c++ {
+		var ops []string
+		created := 0
+		for round := 0; round < r.Range(1, 3); round++ {
+			first := created
+			burst := []int{70, 130, 300, 600}[r.Intn(4)]
+			if !ctx.Thorough && burst > 300 {
+				burst = 300
+			}
+			for i := 0; i < burst; i++ {
+				ops = append(ops, fmt.Sprintf("add %d", r.Range(0, 1000)))
+				created++
+			}
+			drain := burst - r.Range(0, 20)
+			for i := 0; i < drain; i++ {
+				if r.Chance(1, 5) {
+					ops = append(ops, fmt.Sprintf("cancel %d", r.Range(first, created-1)))
+				} else {
+					ops = append(ops, "pop")
+				}
+			}
+			for i := 0; i < r.Range(5, 40); i++ {
+				ops = append(ops, fmt.Sprintf("add %d", r.Range(0, 1000)))
+				created++
+			}
+			// cancel futures of the drained burst once more (fired or already cancelled ones among them)
+			for i := 0; i < r.Range(20, 80); i++ {
+				ops = append(ops, fmt.Sprintf("cancel %d", r.Range(first, first+burst-1)))
+			}
+			for i := 0; i < r.Range(0, 30); i++ {
+				ops = append(ops, "pop")
+			}
+		}
+		tmoRunCase(ctx, ops)
+	}
 }
